@@ -539,6 +539,10 @@ func (c *fileCtx) selectStmt(sel *ast.SelectStmt) []ast.Stmt {
 	if def != nil {
 		bodies = append(bodies, &ast.CaseClause{List: []ast.Expr{intLit(-2)}, Body: def.Body})
 	}
+	// a select whose cases all end in a terminating statement is itself terminating (no "missing return"
+	// after it); a switch is only when it has a default clause, so the dispatch gets an unreachable one
+	bodies = append(bodies, &ast.CaseClause{List: nil, Body: []ast.Stmt{&ast.ExprStmt{X: &ast.CallExpr{
+		Fun: ast.NewIdent("panic"), Args: []ast.Expr{&ast.BasicLit{Kind: token.STRING, Value: strconv.Quote("verif: unreachable select dispatch")}}}}}})
 	dispatch := &ast.SwitchStmt{Tag: ast.NewIdent(fired), Body: &ast.BlockStmt{List: bodies}}
 	out := append(pre, poll, dispatch)
 	return []ast.Stmt{&ast.BlockStmt{List: out}}
